@@ -95,6 +95,24 @@ def synthetic_glyf_font(rng, nglyphs=8, max_depth=3, upem=1000):
             depth[n] = d
         elif kind < 0.55 and i:
             depth[n] = 0  # empty glyph
+        elif kind < 0.75 and i and kind >= 0.67:
+            # point-to-point steps on the boundaries of the WOFF2 glyf transform's coordinate triplet encoding
+            # (WOFF2 5.2: classes by |dx|, |dy| < 65 / 769 / 1280 / 4096 ...), one axis at a time and both
+            steps = [0, 1, 64, 65, 255, 256, 257, 768, 769, 1279, 1280, 1281, 4095, 4096, 4097]
+            x, y = rng.randint(-100, 100), rng.randint(-100, 100)
+            pts = [(x, y)]
+            for _s in range(rng.randint(3, 8)):
+                dx = rng.choice(steps) * rng.choice([-1, 1]) if rng.random() < 0.7 else 0
+                dy = rng.choice(steps) * rng.choice([-1, 1]) if (dx == 0 or rng.random() < 0.5) else 0
+                x = max(-16000, min(16000, x + dx))
+                y = max(-16000, min(16000, y + dy))
+                pts.append((x, y))
+            pen.moveTo(pts[0])
+            for q in pts[1:]:
+                pen.lineTo(q)
+            pen.closePath()
+            depth[n] = 0
+            simple.append(n)
         elif kind < 0.67 and i:
             # hairline: a non-empty outline that is flat in exactly one dimension (zero-height or zero-width box);
             # placed so that, used as a component, it tends to stick out of the other components' boxes
